@@ -128,14 +128,22 @@ def expected_s(path):
     return "not a" if file_ext(path) == "css" else "2"
 
 
-TAIL = 99          # step index of files that are candidates of the entry's second, sequential load
+TAIL = 99          # role of files that perform no load themselves
+
+
+def role(j, i):
+    """role of a file that is a candidate of step i (1-based) of the j-th further chain of the entry"""
+    return 100 * (j + 1) + i
 
 
 def mk_case(entry, steps, files, lps=(), mode="mem", rooted=True, dirs=(), decoy=False, note=None, tail=()):
-    """`steps`: chain of nested loads starting in the entry; `tail`: loads the entry performs itself
-    afterwards (`@import "a"; @import "t";`), which must again be relative to the entry."""
+    """`steps`: chain of nested loads starting in the entry; `tail`: further chains the entry starts itself
+    afterwards (`@import "a"; @import "t";`), each again relative to the entry.  `files[path]` is the
+    role of the file: k < 99: candidate of step k of the first chain (it performs step k+1); 99: performs
+    nothing; 100(j+1)+i: candidate of step i of tail chain j (performs step i+1 of that chain)."""
+    tail = [[list(s) for s in ch] if ch and isinstance(ch[0], (list, tuple)) else [list(ch)] for ch in tail]
     c = {"mode": mode, "rooted": rooted, "entry": entry, "lps": list(lps),
-         "steps": [list(s) for s in steps], "tail": [list(s) for s in tail],
+         "steps": [list(s) for s in steps], "tail": tail,
          "files": dict(files), "dirs": list(dirs), "decoy": decoy}
     if note:
         c["note"] = note
@@ -157,6 +165,9 @@ CORPUS = [
             note="nested load relative to the imported file, `..` kept literally"),
     mk_case("main.scss", [("import", "sub/a")], {"sub/a.scss": 1, "sub/t.scss": TAIL, "t.scss": TAIL, "sub/_t.import.sass": TAIL},
             tail=[("import", "t")], note="second load of the entry is relative to the entry again, not to sub/"),
+    mk_case("main.scss", [("import", "c")], {"c.scss": TAIL, "sub/c.scss": TAIL, "sub/a.scss": role(1, 1)},
+            tail=[[("import", "c")], [("import", "sub/a"), ("import", "c")]],
+            note="same URL loaded again from another directory after it was cached: must resolve relative to sub/"),
     mk_case("main.sass", [("use", "n"), ("import", "k")], {"lp1/n/_index.scss": 1, "lp1/n/k.css": 2, "k.scss": 2}, lps=["lp1"],
             note="index in load path, nested import relative to it"),
 ]
@@ -215,7 +226,7 @@ def gen_random(rng, mode="mem"):
     if rng.random() < 0.25:
         base = rng.choice(["t", "t", "tt.x"]) + rng.choice(["", "", "", ".scss", ".sass"])
         udir = rng.choice(UDIRS[:5])
-        tail = [("import", join(udir, base))]
+        tail = [[("import", join(udir, base))]]
         nested_dirs = [d for d in dict.fromkeys(dirname(f) for f in files) if d != dirname(entry)]
         for ri, root in enumerate([dirname(entry)] + lps + nested_dirs[:3]):
             cands, decoys = names_for(join(root, udir), base)
@@ -232,6 +243,30 @@ def gen_random(rng, mode="mem"):
         dirs = [d for d in dict.fromkeys(dirs) if d not in files]
     return mk_case(entry, steps, files, lps=lps, mode=mode, dirs=dirs, tail=tail,
                    rooted=(rng.random() < 0.85) or mode == "std")
+
+
+def gen_repeat(rng, mode="mem"):
+    """The same URL string loaded several times by the entry and finally by a file in another directory:
+    every load must be resolved afresh, relative to the file that performs it."""
+    entry = rng.choice(["main.scss", "sub/main.scss", "main.sass"])
+    E = dirname(entry)
+    lps = rng.sample(LPS[:3], rng.choice([0, 0, 1, 2]))
+    cudir = rng.choice(["", "", "d"])
+    cbase = rng.choice(["c", "c", "cfg.v", "c.scss", "c.sass"])         # (never .css: `@import "c.css"` is a plain CSS import)
+    curl = join(cudir, cbase)
+    other = rng.choice(["o", "o/p", "lp1"])
+    files = {}
+    for root in [E, join(E, other)] + lps:
+        cands, decoys = names_for(join(root, cudir), cbase)
+        n = rng.choices([0, 1, 2], weights=[25, 60, 15])[0]
+        for f in rng.sample(cands, n):
+            if file_ext(f) != "css" or rng.random() < 0.3:
+                files.setdefault(f, TAIL)
+    reps = rng.choice([1, 2, 2, 3])
+    files[join(join(E, other), rng.choice(["a.scss", "_a.scss", "a.sass", "a/_index.scss"]))] = role(reps, 1)
+    steps = [(rng.choice(KINDS), curl)]
+    tail = [[("import", curl)] for _ in range(reps)] + [[("import", join(other, "a")), (rng.choice(["import", "use"]), curl)]]
+    return mk_case(entry, steps, files, lps=lps, mode=mode, tail=tail, rooted=(rng.random() < 0.85) or mode == "std")
 
 
 def gen_exhaustive(tier):
@@ -265,6 +300,7 @@ class Ctx:
         self.root = f"c13d-{os.getpid()}"            # decoy tree on the real disk, inside the runner's cwd
         self.std_root = os.path.join(BUILD, f"c13s-{os.getpid()}")
         self.std_n = 0
+        self.decoy_n = 0
         self.af_cur = AF_CUR                         # narrowed by detect_variant() when a witness went stale
 
     def cleanup(self):
@@ -290,7 +326,7 @@ class Ctx:
 def prefix_of(ctx, case):
     if case["mode"] == "std":
         return case["_std_dir"]
-    return ctx.root if case["rooted"] else ""
+    return case.get("_root", f"{ctx.root}/x") if case["rooted"] else ""
 
 
 def P(pre, p):
@@ -310,7 +346,7 @@ def chain_line(af, pre, case):
     return "import chain %s %s %s %s %s %s" % (
         af, P(pre, case["entry"]), lst([P(pre, l) for l in case["lps"]]), lst([P(pre, f) for f in allf]),
         lst([P(pre, d) for d in case["dirs"]]),
-        "+".join([lst([step_tok(s) for s in case["steps"]])] + [step_tok(s) for s in case.get("tail", [])]))
+        "+".join(lst([step_tok(s) for s in ch]) for ch in [case["steps"]] + case.get("tail", [])))
 
 
 def parse_chain(ans):
@@ -333,16 +369,21 @@ def parse_chain(ans):
 
 
 def file_contents(case):
-    steps = case["steps"]
+    steps, tail = case["steps"], case.get("tail", [])
     out = {}
 
-    def nxt(k):                      # statement performed by a file that is a candidate of step k (0 = entry)
-        return (steps[k][0], steps[k][1], k + 1) if k < len(steps) else None
+    def nxt(k):                      # the load performed by a file of role k (0 = the entry's first statement)
+        if k < TAIL:
+            return (steps[k][0], steps[k][1], k + 1) if k < len(steps) else None
+        if k == TAIL:
+            return None
+        j, i = k // 100 - 1, k % 100
+        return (tail[j][i][0], tail[j][i][1], k + 1) if j < len(tail) and i < len(tail[j]) else None
     out[case["entry"]] = content(case["entry"], nxt(0))
-    if case.get("tail"):             # further loads of the entry itself, after the first statement
+    if tail:                         # further loads of the entry itself, after the first statement
         sass = file_ext(case["entry"]) == "sass"
         head, sep, rest = out[case["entry"]].partition("\n")
-        more = "\n".join(stmt(k, u, TAIL, sass) for k, u in case["tail"])
+        more = "\n".join(stmt(ch[0][0], ch[0][1], role(j, 0), sass) for j, ch in enumerate(tail))
         out[case["entry"]] = head + sep + more + "\n" + rest
     for f, k in case["files"].items():
         out[f] = content(f, nxt(k))
@@ -388,17 +429,25 @@ def observe(ctx, case, ans):
     if not calls or calls[0][:2] != ["read", P(pre, case["entry"])]:
         ob["anomaly"] = "first Fs call is not the read of the entry file"
         return ob
-    steps, cur = [], []
+    # one load = the probes up to the `is_file` that answered true (the file `find_import` returns),
+    # followed by at most one read of it (none when the stylesheet cache serves it)
+    steps, cur, hit = [], [], None
     for op, path, res in calls[1:]:
         path = path or "-"
         if op == "read":
-            cur.append("r:" + path)
-            steps.append(("L:" + path, cur))
-            cur = []
+            if hit is None or steps[-1][0] != "L:" + path or steps[-1][1][-1].startswith("r:"):
+                ob["anomaly"] = "read that does not follow the successful is_file of the same path: " + path
+                steps.append(("L:" + path, cur + ["r:" + path]))
+                cur = []
+            else:
+                steps[-1][1].append("r:" + path)
             if res != "1":
                 ob["anomaly"] = "read of a missing file: " + path
         elif op in ("is_file", "is_dir"):
             cur.append(("f:" if op == "is_file" else "d:") + path)
+            if op == "is_file" and res == "1":
+                steps.append(("L:" + path, cur))
+                cur, hit = [], path
         else:
             ob["anomaly"] = "unknown Fs call " + op
     if cur:
@@ -407,21 +456,30 @@ def observe(ctx, case, ans):
     return ob
 
 
-def expected_markers(case, pre, loaded):
-    """markers the output must contain when exactly `loaded` (prefixed paths) were loaded after the entry."""
+def expected_markers(case, pre, results):
+    """markers the output must contain when the loads had these results ('L:path' …, prefixed paths): the
+    entry's, one per `@import` of a file, and one per *module* (a file loaded by @use/@forward emits its CSS
+    only the first time it is loaded as a module)."""
     def unp(p):
         return p[len(pre) + 1:] if pre and p.startswith(pre + "/") else p
-    fs = [case["entry"]] + [unp(p) for p in loaded]
+    fs, modules = [case["entry"]], set()
+    for res, w in zip(results, plan_walk(case, pre, results)):
+        if not res.startswith("L:"):
+            continue
+        if w is not None and w[1][0] != "import":
+            if res in modules:
+                continue
+            modules.add(res)
+        fs.append(unp(res[2:]))
     return sorted((f, expected_s(f)) for f in fs)
 
 
 def model_obs(case, pre, steps):
     """What the implementation should show if it behaves like this model chain."""
-    loaded = [r[2:] for r, _, _ in steps if r.startswith("L:")]
     failed = any(r == "E" for r, _, _ in steps)
     return {"status": "notfound" if failed else "ok",
             "steps": [(r, c) for r, _, c in steps],
-            "markers": None if failed else expected_markers(case, pre, loaded)}
+            "markers": None if failed else expected_markers(case, pre, [r for r, _, _ in steps])}
 
 
 def same_obs(case, impl, model):
@@ -438,42 +496,39 @@ def same_obs(case, impl, model):
 
 def plan_walk(case, pre, results):
     """For the i-th observed/model load (results[i] = 'L:path' | 'E') the (importer, step) it answers to:
-    the nested chain first (each step relative to the file just loaded; a CSS file or the last step ends
-    it), then the entry's own further loads.  None where the program performs no further load."""
+    the chains of the entry one after the other; inside a chain each step is relative to the file just
+    loaded, and a CSS file or the last step ends the chain.  None where the program performs no further load."""
     entry = P(pre, case["entry"])
-    out, importer, j, t, in_tail = [], entry, 0, 0, False
+    chains = [case["steps"]] + case.get("tail", [])
+    out, importer, c, j = [], entry, 0, 0
     for res in results:
-        if in_tail:
-            if t >= len(case.get("tail", [])):
-                out.append(None)
-                continue
-            out.append((entry, case["tail"][t]))
-            t += 1
-        else:
-            out.append((importer, case["steps"][j]))
-            if res.startswith("L:"):
-                importer = res[2:]
-                if file_ext(importer) == "css" or j == len(case["steps"]) - 1:
-                    in_tail = True
-                j += 1
+        if c >= len(chains):
+            out.append(None)
+            continue
+        out.append((importer, chains[c][j]))
         if not res.startswith("L:"):
             break
+        if file_ext(res[2:]) == "css" or j == len(chains[c]) - 1:
+            c, j, importer = c + 1, 0, entry
+        else:
+            j, importer = j + 1, res[2:]
     return out + [None] * (len(results) - len(out))
 
 
-def plan_complete(case, results):
+def plan_complete(case, pre, results):
     """the observed loads are all the loads the program performs (it stops only at a failed load)"""
     if results and results[-1] == "E":
         return True
-    j, n = 0, 0
-    for res in results:                                   # nested chain
-        n += 1
-        j += 1
-        if file_ext(res[2:]) == "css" or j == len(case["steps"]):
-            break
-    else:
-        return False                                      # chain not finished (or nothing loaded at all)
-    return len(results) - n == len(case.get("tail", []))
+    chains = [case["steps"]] + case.get("tail", [])
+    c, j = 0, 0
+    for res in results:
+        if c >= len(chains):
+            return False
+        if file_ext(res[2:]) == "css" or j == len(chains[c]) - 1:
+            c, j = c + 1, 0
+        else:
+            j += 1
+    return c == len(chains) and j == 0
 
 
 def make_disk_decoys(ctx, cases, models):
@@ -483,7 +538,7 @@ def make_disk_decoys(ctx, cases, models):
     for ci, case in enumerate(cases):
         if not (case["decoy"] and case["mode"] == "mem" and case["rooted"] and models[ci]):
             continue
-        pre = ctx.root
+        pre = prefix_of(ctx, case)
         results = [r for r, _, _ in models[ci][0]]
         for w in plan_walk(case, pre, results):
             if w is None:
@@ -495,7 +550,7 @@ def make_disk_decoys(ctx, cases, models):
     for ci, ans in zip(owner, driver(lines) if lines else []):
         if not ans.startswith("ok "):
             continue
-        have = {P(ctx.root, f) for f in cases[ci]["files"]}
+        have = {P(prefix_of(ctx, cases[ci]), f) for f in cases[ci]["files"]}
         for c in ans[3:].split(","):
             kind, _, p = c.partition(":")
             if kind != "f" or p in have or "/../" in p:
@@ -520,6 +575,11 @@ def evaluate(ctx, cases, count=True):
         if case["mode"] == "std":
             ctx.std_n += 1
             case["_std_dir"] = os.path.join(ctx.std_root, str(ctx.std_n))
+        elif case["rooted"] and case["decoy"]:
+            ctx.decoy_n += 1                             # its own tree on the real disk
+            case["_root"] = f"{ctx.root}/{ctx.decoy_n}"
+        elif case["rooted"]:
+            case["_root"] = f"{ctx.root}/x"              # a directory that never exists on the real disk
     pres = [prefix_of(ctx, c) for c in cases]
     # the model first (both variants)
     outs = driver([chain_line(af, pre, c) for c, pre in zip(cases, pres) for af in (ctx.af_cur, AF_SPEC)])
@@ -584,13 +644,13 @@ def evaluate(ctx, cases, count=True):
                     want = {"ok css": "not a"}.get(ans, "2")
                     if ob["status"] == "ok" and (unp, want) not in (ob["markers"] or []):
                         why.append(f"file {unp} not parsed with the syntax of its extension ({ans})")
-            if ob["steps"] is not None and not plan_complete(case, [r for r, _ in ob["steps"]]):
+            if ob["steps"] is not None and not plan_complete(case, pre, [r for r, _ in ob["steps"]]):
                 why.append("fewer loads observed than the program performs")
             last_e = bool(ob["steps"]) and ob["steps"][-1][0] == "E"
             if ob["status"] not in ("ok", "notfound") or (ob["status"] == "notfound") != last_e:
                 why.append(f"status {ob['status']} does not fit the loads observed")
             if ob["status"] == "ok" and ob["steps"] is not None:
-                want = expected_markers(case, pre, [r[2:] for r, _ in ob["steps"]])
+                want = expected_markers(case, pre, [r for r, _ in ob["steps"]])
                 if ob["markers"] != want:
                     why.append("output markers differ from the files read")
             v["result_level"] = res_fail
@@ -682,7 +742,9 @@ def account(ck, v):
     ck.hist("fs=" + case["mode"])
     ck.hist("steps=%d" % len(case["steps"]))
     if case.get("tail"):
-        ck.hist("with-second-load-from-the-entry")
+        ck.hist("with-further-loads-from-the-entry")
+        if any(st == case["steps"][0][1] for ch in case["tail"] for _, st in ch):
+            ck.hist("same-URL-loaded-repeatedly(stylesheet cache in play)")
     ck.hist("kind=" + case["steps"][0][0])
     ck.hist("url=" + shape_of(case))
     ck.hist("load_paths=%d" % len(case["lps"]))
@@ -809,7 +871,8 @@ def shrink(ctx, v):
         for i in range(len(case["lps"])):
             cands.append(dict(case, lps=case["lps"][:i] + case["lps"][i + 1:]))
         if case.get("tail"):
-            cands.append(dict(case, tail=[], files={g: s for g, s in case["files"].items() if s != TAIL}))
+            nt = len(case["tail"]) - 1
+            cands.append(dict(case, tail=case["tail"][:nt], files={g: s for g, s in case["files"].items() if s // 100 != nt + 1}))
         if len(case["steps"]) > 1:
             k = len(case["steps"]) - 1
             cands.append(dict(case, steps=case["steps"][:k],
@@ -867,14 +930,20 @@ def _run(ck, ctx, tier):
     cases += gen_exhaustive(tier)
     n_rand = 4000 if tier == "quick" else 200000
     n_std = 200 if tier == "quick" else 3000
-    n_decoy = 400 if tier == "quick" else 6000
+    n_decoy = 300 if tier == "quick" else 2000
+    n_rep = 500 if tier == "quick" else 15000
+    if getattr(ck, "changed", None) and tier == "quick":
+        # the modelled sources differ from the snapshot the model was validated against: look harder
+        n_rand, n_rep = 2 * n_rand, 3 * n_rep
     rnd = [gen_random(rng) for _ in range(n_rand)]
     for c in rnd[:n_decoy]:
         c["decoy"] = c["rooted"]
-    for c in cases[:200]:
+    for c in cases[:120]:
         c["decoy"] = c["rooted"]
     cases += rnd
+    cases += [gen_repeat(rng) for _ in range(n_rep)]
     cases += [gen_random(rng, mode="std") for _ in range(n_std)]
+    cases += [gen_repeat(rng, mode="std") for _ in range(50 if tier == "quick" else 500)]
     verdicts = []
     CH = 20000
     for off in range(0, len(cases), CH):
